@@ -28,6 +28,20 @@ type Raw struct {
 	Suite ref.Suite
 	Prf   int
 	K     ref.IKEKeys
+	// In (optional): the keys are those RFC 7296 2.14 derives from these inputs; NewKey then lets the LIBRARY derive
+	// them (GenerateKeyForIKESA) instead of installing them by hand, on a struct with the given keying history
+	In *Inputs
+}
+
+// Inputs of an IKE SA key derivation and the history of the struct they are derived into.
+type Inputs struct {
+	Nonce, Shared []byte
+	SPIi, SPIr    uint64
+	// History: 0 = fresh struct; 1 = the struct was keyed before with other inputs (IKE SA rekey / IKE_SA_INIT rerun
+	// that recycles the record); 2 = the struct is a value copy of another SA's keyed struct, then keyed
+	History             int
+	OldNonce, OldShared []byte
+	OldSPIi, OldSPIr    uint64
 }
 
 // RandomRaw draws key material (optionally all-zero / all-FF corners).
@@ -47,14 +61,35 @@ func RandomRaw(r *core.Rng, s ref.Suite) Raw {
 		return r.Bytes(n)
 	}
 	pl := ref.PrfKeyLen(p)
+	if r.Intn(4) == 0 {
+		return derived(r, s, p)
+	}
 	return Raw{Suite: s, Prf: p, K: ref.IKEKeys{D: fill(pl), Ai: fill(s.IntegKeyLen()), Ar: fill(s.IntegKeyLen()),
 		Ei: fill(s.EncKeyLen), Er: fill(s.EncKeyLen), Pi: fill(pl), Pr: fill(pl)}}
+}
+
+func derived(r *core.Rng, s ref.Suite, p int) Raw {
+	in := &Inputs{Nonce: r.Bytes(r.Range(16, 64)), Shared: r.Bytes(r.Pick(128, 256)), SPIi: r.U64(), SPIr: r.U64(), History: r.Intn(3),
+		OldNonce: r.Bytes(32), OldShared: r.Bytes(128), OldSPIi: r.U64(), OldSPIr: r.U64()}
+	return Raw{Suite: s, Prf: p, K: ref.DeriveIKE(p, s, in.Nonce, in.Shared, in.SPIi, in.SPIr), In: in}
+}
+
+// DerivedRaw: keys that the library derives itself (NewKey calls GenerateKeyForIKESA).
+func DerivedRaw(r *core.Rng, s ref.Suite) Raw { return derived(r, s, r.Intn(3)) }
+
+// RecycledFrom: an SA whose struct was keyed for `old` before (same algorithms) and is now keyed for fresh inputs -
+// the record of a finished SA reused for the next one.
+func RecycledFrom(r *core.Rng, old Raw) Raw {
+	n := derived(r, old.Suite, old.Prf)
+	n.In.History = 1
+	n.In.OldNonce, n.In.OldShared, n.In.OldSPIi, n.In.OldSPIr = old.In.Nonce, old.In.Shared, old.In.SPIi, old.In.SPIr
+	return n
 }
 
 func (r Raw) JSON() map[string]interface{} {
 	return map[string]interface{}{"suite": r.Suite.Name(), "prf": PrfNames[r.Prf],
 		"SK_d": core.Hex(r.K.D), "SK_ai": core.Hex(r.K.Ai), "SK_ar": core.Hex(r.K.Ar), "SK_ei": core.Hex(r.K.Ei),
-		"SK_er": core.Hex(r.K.Er), "SK_pi": core.Hex(r.K.Pi), "SK_pr": core.Hex(r.K.Pr)}
+		"SK_er": core.Hex(r.K.Er), "SK_pi": core.Hex(r.K.Pi), "SK_pr": core.Hex(r.K.Pr), "derived_by_library_with_history": r.In != nil}
 }
 
 // Sender-direction keys for a role (true = initiator).
@@ -79,6 +114,23 @@ func NewKey(r Raw) (*security.IKESAKey, error) {
 	}
 	if k.EncrInfo == nil || k.IntegInfo == nil || k.PrfInfo == nil || k.DhInfo == nil {
 		return nil, fmt.Errorf("libsa: algorithm lookup by name failed")
+	}
+	if r.In != nil {
+		in := r.In
+		if in.History >= 1 {
+			if err := k.GenerateKeyForIKESA(cp(in.OldNonce), cp(in.OldShared), in.OldSPIi, in.OldSPIr); err != nil {
+				return nil, err
+			}
+		}
+		if in.History == 2 {
+			c := *k
+			k = &c
+		}
+		if err := k.GenerateKeyForIKESA(cp(in.Nonce), cp(in.Shared), in.SPIi, in.SPIr); err != nil {
+			return nil, err
+		}
+		core.GlobalCount(fmt.Sprintf("sa_objects_keyed_by_the_library_history_%d", in.History))
+		return k, nil
 	}
 	k.SK_d, k.SK_ai, k.SK_ar, k.SK_ei, k.SK_er, k.SK_pi, k.SK_pr =
 		cp(r.K.D), cp(r.K.Ai), cp(r.K.Ar), cp(r.K.Ei), cp(r.K.Er), cp(r.K.Pi), cp(r.K.Pr)
